@@ -283,6 +283,12 @@ func (x *Exec) inline(fr *Frame, st *State, callee *ssa.Function, args []Val, bi
 
 // applyContract: check requires, havoc assigns, assume ensures.
 func (x *Exec) applyContract(fr *Frame, st *State, callee *ssa.Function, fc *FuncContract, args []Val, rt types.Type, pos token.Pos) Val {
+	return packResults(rt, x.applyContractR(fr, st, callee, fc, args, pos))
+}
+
+// applyContractR: the callee's effect as its contract describes it (requires checked or assumed,
+// assigns havoced, ensures assumed); returns the result values.
+func (x *Exec) applyContractR(fr *Frame, st *State, callee *ssa.Function, fc *FuncContract, args []Val, pos token.Pos) []Val {
 	if fc.Trusted {
 		x.trusted["contract "+shortPkg(fc.Pkg)+"."+fc.Key] = true
 	}
@@ -335,7 +341,7 @@ func (x *Exec) applyContract(fr *Frame, st *State, callee *ssa.Function, fc *Fun
 		}
 		x.assume(st, t)
 	}
-	return packResults(rt, results)
+	return results
 }
 
 // havocPattern havocs the locations named by an assigns pattern evaluated in env.
